@@ -44,9 +44,10 @@ def configStep : List String → String
       match (if which == "fresh" then Yow.Gen.saveTraceFresh else Yow.Gen.saveTraceExisting) with
       | none => "raises"
       | some ops =>
-        let old : FS := fun p => if p = 0 ∧ which != "fresh" then some [111] else none   -- "o"
+        let old : FS := { files := fun p => if p = 0 ∧ which != "fresh" then some [111] else none,   -- "o"
+                          buf := fun _ => [], target := fun p => p }
         let fs := applyOps [110] old (ops.take k)                                       -- "n"
-        s!"{ops.length} " ++ (match fs 0 with
+        s!"{ops.length} " ++ (match fs.files 0 with
           | none => "absent" | some [111] => "old" | some [110] => "new" | some [] => "empty" | some _ => "other")
     | none => "bad-op"
   | _ => "bad-op"
